@@ -173,7 +173,15 @@ class Ctx(object):
         elif r == z3.sat:
             v = vc.Verdict('refuted', model=s.model(), backend='z3', note=why)
         else:
-            v = vc.Verdict('undecided', backend='z3', note='feasibility of failing path unknown: ' + why)
+            # the plain solver could not decide feasibility: try to prove the path infeasible with the full pipeline (tactics, normal forms, cvc5)
+            try:
+                v2 = vc.prove(st.pc, side, core.sbool(False))
+            except z3.Z3Exception:
+                v2 = None
+            if v2 is not None and v2.status == 'proved':
+                v = vc.Verdict('proved', backend=v2.backend, note='path infeasible')
+            else:
+                v = vc.Verdict('undecided', backend='z3', note='feasibility of failing path unknown: ' + why)
         return self.record(st, name, v, dict(info or {}, why=why), replay)
 
     def unsupported(self, name, why):
